@@ -19,7 +19,9 @@
 (*               actor_critic_policy_gradient, a2c_policy_gradient)           *)
 (*   PGLoss      stochastic_policy_gradient_pseudo_loss                       *)
 (*   Surr, PolLoss, ValLoss, PPOLoss     ppo_loss                             *)
-(*   PPORow      first epoch of update_ppo (old log-probs = own log-probs)    *)
+(*   PPORow      first epoch of update_ppo (old log-probs = own log-probs);   *)
+(*               the use of the objective over SEVERAL epochs (reference      *)
+(*               fixed at entry) is the state machine of ActorEpochs.tla      *)
 (*   QVal, DPGLoss   deterministic_policy_gradient_loss (DDPG), .._sale (TD7: *)
 (*               mean of the two critics), mrq_policy_loss (min + activation  *)
 (*               regularisation)                                              *)
